@@ -83,6 +83,9 @@ func cmdDev(cfg Config, fnFilter string, dump bool, budget int) int {
 			continue
 		}
 		rep := p.verifyFunction(fn, p.cs.Funcs[k])
+		if os.Getenv("GOCV_DEBUG") != "" {
+			fmt.Fprintf(os.Stderr, "%s: %d obligation instances, %d paths, aborted=%q\n", k, len(rep.Obls), rep.Paths, rep.Aborted)
+		}
 		p.discharge(rep, budget, 16)
 		fmt.Printf("== %s: paths=%d returns=%d obligations=%d trivial=%d aborted=%q\n", k, rep.Paths, rep.Returns, len(rep.Obls), rep.Trivial, rep.Aborted)
 		for _, n := range rep.Notes {
@@ -99,7 +102,14 @@ func cmdDev(cfg Config, fnFilter string, dump bool, budget int) int {
 				ms[ob.Name] = ob.result.Ms
 			}
 			if ob.status != "unsat" && dump {
-				fmt.Printf("---- %s [%s]\n%s\n%s\n", ob.Name, ob.status, rep.exec.buildQuery(ob.node), ob.result.Raw)
+				q := rep.exec.buildQuery(ob.node)
+				if os.Getenv("GOCV_SLICED") == "1" {
+					q = rep.exec.buildQueryOpt(ob.node, true, true)
+				}
+				if os.Getenv("GOCV_SLICED") == "2" {
+					q = rep.exec.buildQuerySliced(ob.node, true, true, true)
+				}
+				fmt.Printf("---- %s [%s]\n%s\n%s\n", ob.Name, ob.status, q, ob.result.Raw)
 			}
 		}
 		var names []string
